@@ -6,6 +6,8 @@ import PhyVerif.Model.C16c
 import PhyVerif.Lemmas.C16c
 import PhyVerif.Model.C16d
 import PhyVerif.Lemmas.C16d
+import PhyVerif.Model.C16e
+import PhyVerif.Lemmas.C16e
 /-!
 # C16 — chunkings tile the sample axis exactly once
 
@@ -46,12 +48,26 @@ theorem reader_iter_tile (sizes : List Nat) (cs : Nat) (hcs : 0 < cs) (hne : siz
   Lemmas.reader_iter_tile sizes cs hcs hne
 
 /-- The compressed reader's batch iterator (batch look-behind, trailing last chunk): its
-non-empty intervals tile [0, n) in order, for every batch size and chunk table. -/
+non-empty intervals tile [0, n) in order, for every batch size ≥ 1 and chunk table.
+`0 < bs`: the batch size is `mtscomp.Reader.batch_size` = the `n_threads` the reader was created with.  A reader
+handed over as an object has the caller's `n_threads ≥ 1`; a compressed file given BY PATH is opened with
+`mtscomp.Reader(n_threads=mp.cpu_count() // 2)` (traces.py:483) — 0 on a machine with ONE cpu.  At `bs = 0` the real
+code never gets as far as the iterator: `reader.open` computes `n_batches = ceil(n_chunks / batch_size)` and
+raises ZeroDivisionError (ran it with `mp.cpu_count` patched to 1), so there is no reader at all — a matter of the
+environment, outside "thread/batch counts".  The total model yields nothing there and does NOT tile
+(`iterChunksMts_bs_zero`). -/
 theorem iterChunksMts_tile (bs : Nat) (hbs : 0 < bs) (cb : List Nat) (n : Nat)
     (h0 : cb.head? = some 0) (hl : cb.getLast? = some n) (hs : strictInc cb = true)
     (hlen : 2 ≤ cb.length) :
     intervalsTile n (iterChunksMts bs cb) = true :=
   Lemmas.iterChunksMts_tile bs hbs cb n h0 hl hs hlen
+
+/-- The hypothesis `0 < bs` of `iterChunksMts_tile` is needed: at batch size 0 (`cpu_count() // 2` on a one-cpu
+machine; the real `get_ephys_reader(<path>.cbin)` raises ZeroDivisionError while opening) the model's iterator is
+empty and tiles nothing. -/
+theorem iterChunksMts_bs_zero (cb : List Nat) (n : Nat) (hn : 0 < n) :
+    iterChunksMts 0 cb = [] ∧ intervalsTile n (iterChunksMts 0 cb) = false :=
+  ⟨Lemmas.iterChunksMts_bs_zero cb, Lemmas.iterChunksMts_bs_zero_not_tile cb n hn⟩
 
 /-- Excerpts are in-bounds, disjoint, increasing, at most `k` and each at most `size` long. -/
 theorem excerpts_ok (n k size : Int) (hn : 0 ≤ n) (hk : 2 ≤ k) (hs : 0 ≤ size) :
@@ -94,23 +110,37 @@ theorem chunkBounds_parts_ok {α : Type} (data : List α) (cs ov : Int)
   fun c hc => Lemmas.chunk_inside data cs hcs c
     (Lemmas.chunkBounds_good _ cs ov (Int.natCast_nonneg _) hcs hov0 hov c hc)
 
-/-- The chunk length of flat / in-memory / npy readers, `int(round(600.0 * sample_rate))` with Python's
-`round` on the exact value of the float product: within half a sample of 600 s worth of samples, … -/
+/-- ABOUT THE EXACT PRODUCT, not the code: `chunkSize` rounds the exact rational `600·rate`; the readers compute
+the FLOAT product `600.0 * sample_rate` first (`chunkSizeFl`, `Model/C16d.lean`) and the two differ at rates whose
+product lies within half an ulp of a `.5` tie (`chunkSizeFl_ne_chunkSize`; e.g. the doubles 0.0225 and the one
+nearest to 1/1200).  The statement about the code is the twin `chunkSizeFl_close` / `chunkSizeFl_close_rel`; this one
+is kept as the reference the float result is compared with (`chunkSizeFl_eq_chunkSize`, `chunkSizeFl_eq_of_far`).
+`int(round(600 * sample_rate))` with Python's `round` on the exact product: within half a sample of 600 s worth of
+samples, … -/
 theorem chunkSize_close (rate : Rat) :
     600 * rate - 1/2 ≤ (chunkSize rate : Rat) ∧ (chunkSize rate : Rat) ≤ 600 * rate + 1/2 :=
   Lemmas.chunkSize_bounds rate
 
-/-- … THE integer strictly closer than half a sample when there is one, … -/
+/-- … THE integer strictly closer than half a sample when there is one (EXACT product; for the code — float
+product — the twin is `chunkSizeFl_eq_of_far`, which needs the margin `2^-53·|600·rate|` on both sides), … -/
 theorem chunkSize_nearest (rate : Rat) (m : Int) (h1 : 600 * rate - 1/2 < m)
     (h2 : (m : Rat) < 600 * rate + 1/2) : chunkSize rate = m :=
   Lemmas.chunkSize_unique rate m h1 h2
 
-/-- … and the EVEN neighbour when 600 s is exactly half-way between two sample counts. -/
+/-- … and the EVEN neighbour when 600 s is exactly half-way between two sample counts (EXACT product; an exact tie
+`k + 1/2` with `|k| < 2^52` is a double, so there `chunkSizeFl_eq_chunkSize` makes this a statement about the code
+too — but the float product is ALSO a tie at rates whose exact product is not, e.g. the double 0.0225:
+`chunkSizeFl_ne_chunkSize`). -/
 theorem chunkSize_tie_even (rate : Rat) (k : Int) (h : 600 * rate = k + 1/2) :
     chunkSize rate % 2 = 0 ∧ (chunkSize rate = k ∨ chunkSize rate = k + 1) :=
   Lemmas.chunkSize_tie rate k h
 
-/-- The reader clause with the chunk length tied to the sample rate: for every rate above 1/1200 Hz and any
+/-- ABOUT THE EXACT PRODUCT, not the code (`readerChunkBounds` uses `chunkSize`): at the double 0.0225 and at the
+double nearest to 1/1200 these are bounds the real reader does NOT have (chunk 13 here, 14 in the reader; accepted
+here, AssertionError in the reader).  The statements about the code are the twins `readerChunkBoundsFl_ok` /
+`readerChunkBoundsFl_rejects` with `chunkSizeFl_pos_iff`; the two coincide whenever the product is a double
+(`Lemmas.readerChunkBoundsFl_eq`).
+The reader clause with the chunk length tied to the sample rate: for every rate above 1/1200 Hz and any
 number of files the constructor's bounds exist, start at 0, end at the sample count, increase strictly, contain
 every file boundary, and are never further apart than `int(round(600·rate))`.  At and below 1/1200 Hz the
 real constructors raise `AssertionError` (`assert chunk_size > 0`, traces.py:144; checked: 1/1200 → 0 by the
@@ -119,6 +149,8 @@ theorem readerChunkBounds_ok (sizes : List Nat) (rate : Rat) (hne : sizes ≠ []
     ∃ cb, readerChunkBounds sizes rate = some cb ∧ boundsOK sizes (chunkSize rate).toNat cb = true :=
   Lemmas.readerChunkBounds_ok sizes rate hne hr
 
+/-- EXACT product (see `readerChunkBounds_ok`); the code's threshold is `600·rate ≤ 1/2 + 2^-54`
+(`chunkSizeFl_pos_iff`, `readerChunkBoundsFl_rejects`), which lies ABOVE 1/1200. -/
 theorem readerChunkBounds_rejects (sizes : List Nat) (rate : Rat) (hr : rate ≤ 1/1200) :
     readerChunkBounds sizes rate = none :=
   Lemmas.readerChunkBounds_none sizes rate hr
@@ -128,7 +160,9 @@ mtscomp writes for `n ≥ 1` samples and chunk length `cs ≥ 1` (`range(0, n, c
 `_get_chunk_bounds` builds for one array of `n` rows, hence satisfies the reader clause with chunk length `cs`:
 from 0 to `n`, strictly increasing, never further apart than `cs`.  (For `n = 0` mtscomp raises.)  For an
 arbitrary table the clause is the decidable predicate `boundsOK [n] cs table`, evaluated on the real table by
-the correspondence run. -/
+the correspondence run.  (`mtsTable` models mtscomp's WRITER — third-party code, not phylib: this theorem says why the
+clause can be expected of a table mtscomp wrote; what the property needs of the reader is only the clause on the
+table it actually finds, and the comparison of the real table with `mtsTable` is a CORR matter.) -/
 theorem cbin_table_ok (n cs : Nat) (hn : 1 ≤ n) (hcs : 0 < cs) :
     mtsTable n cs = some (getChunkBounds [n] cs) ∧ boundsOK [n] cs (getChunkBounds [n] cs) = true :=
   ⟨Lemmas.mtsTable_eq n cs hn hcs, getChunkBounds_ok [n] cs hcs (by simp)⟩
@@ -217,11 +251,55 @@ theorem mtsChunkSizeFl_close (cd rate : Rat) :
     (IsDouble (cd * rate) → mtsChunkSizeFl cd rate = mtsChunkSize cd rate) :=
   ⟨Lemmas.mtsChunkSizeFl_close cd rate, Lemmas.mtsChunkSizeFl_eq cd rate⟩
 
-/-! Non-vacuity.  The double `0.0225 = 3242591731706757 / 2^57`: the exact product `600·rate` is just BELOW 13.5
-(nearest integer 13) but the float product is exactly 13.5 and `round` takes the even neighbour 14 — what the real
-reader computes.  `1/16`: an exact tie, both models agree. -/
-example : chunkSizeFl (3242591731706757 / 144115188075855872) = 14 ∧
-    chunkSize (3242591731706757 / 144115188075855872) = 13 := by decide +kernel
+/-- The float product matters: at the double `0.0225 = 3242591731706757 / 2^57` the exact product `600·rate` is
+just BELOW 13.5 (nearest integer 13) but the float product is exactly 13.5 and `round` takes the even neighbour 14 —
+what the real reader computes (ran it: `chunk_bounds[:3] == [0, 14, 28]`).  So the exact-rational `chunkSize` /
+`readerChunkBounds` are NOT the code at this rate. -/
+theorem chunkSizeFl_ne_chunkSize :
+    chunkSizeFl (3242591731706757 / 144115188075855872) = 14 ∧
+    chunkSize (3242591731706757 / 144115188075855872) = 13 :=
+  Lemmas.chunkSizeFl_ne_chunkSize_witness
+
+/-! ## Sample rates that are not binary64 numbers (`Model/C16e.lean`) -/
+
+open PhyVerif.Fl in
+/-- `int(round(600.0 * sample_rate))` for a NumPy floating scalar of precision `p` (float16 / float32 / long double:
+the product is computed in the precision of the scalar): whatever number `y` the multiplication returns, as long as it
+is within the relative rounding error `2^-p` of the exact product — every correctly rounded format with `p`
+significant bits is, in its normal range — the chunk length lies between `chunkSizeLo p rate` and
+`chunkSizeHi p rate`, i.e. within `1/2 + 2^-p·|600·rate|` of 600 s worth of samples. -/
+theorem chunkSize_in_envelope (p : Nat) (rate y : Rat)
+    (h : absR (y - 600 * rate) ≤ pow2 (-(p : Int)) * absR (600 * rate)) :
+    chunkSizeLo p rate ≤ pyRound y ∧ pyRound y ≤ chunkSizeHi p rate :=
+  Lemmas.pyRound_in_envelope p rate y h
+
+/-- … the binary64 model is the instance `p = 53`, and the envelope always contains the chunk length of the exact
+product (it is never empty). -/
+theorem chunkSizeFl_in_envelope (rate : Rat) :
+    (chunkSizeLo 53 rate ≤ chunkSizeFl rate ∧ chunkSizeFl rate ≤ chunkSizeHi 53 rate) ∧
+    ∀ p, chunkSizeLo p rate ≤ chunkSize rate ∧ chunkSize rate ≤ chunkSizeHi p rate :=
+  ⟨Lemmas.chunkSizeFl_in_envelope rate, fun p => Lemmas.envelope_nonempty p rate⟩
+
+open PhyVerif.Fl in
+/-- … and it decides the constructor's `assert chunk_size > 0` at both ends: an envelope at or below 0 means
+AssertionError, an envelope starting at 1 or more means the rate is accepted, whatever the rounding. -/
+theorem envelope_decides (p : Nat) (rate y : Rat)
+    (h : absR (y - 600 * rate) ≤ pow2 (-(p : Int)) * absR (600 * rate)) :
+    (chunkSizeHi p rate ≤ 0 → pyRound y ≤ 0) ∧ (1 ≤ chunkSizeLo p rate → 0 < pyRound y) :=
+  Lemmas.envelope_decides p rate y h
+
+/-! Non-vacuity.  `1/16`: an exact tie, both models agree.  `np.float32(0.0375) = 5033165/2^27`: the float32 product
+is the tie 22.5 → the real reader's chunk is 22 (ran it), the binary64 model at this rational says 23; both lie in the
+envelope at 24 bits, which holds nothing else; at 53 bits only 23 is left. -/
+example : (chunkSizeLo 24 (5033165 / 134217728), chunkSizeHi 24 (5033165 / 134217728)) = (22, 23) ∧
+    (chunkSizeLo 53 (5033165 / 134217728), chunkSizeHi 53 (5033165 / 134217728)) = (23, 23) ∧
+    chunkSizeFl (5033165 / 134217728) = 23 := by decide +kernel
+example : PhyVerif.Fl.absR ((45 / 2 : Rat) - 600 * (5033165 / 134217728)) ≤
+    PhyVerif.Fl.pow2 (-(24 : Int)) * PhyVerif.Fl.absR (600 * (5033165 / 134217728)) ∧ pyRound (45 / 2) = 22 := by
+  decide +kernel
+example : chunkSizeHi 24 (1 / 2048) = 0 ∧ chunkSizeLo 11 (1 / 16) = 37 ∧ chunkSizeHi 11 (1 / 16) = 38 ∧
+    chunkSizeLo 24 (1 / 8) = 75 ∧ chunkSizeHi 24 (1 / 8) = 75 := by decide +kernel
+example : iterChunksMts 0 [0, 3, 6] = [] ∧ iterChunksMts 1 [0, 3, 6] = [(0, 0), (0, 3), (3, 6)] := by decide
 /-- … there the last place of the product is 2^-49 and the bound of `chunkSizeFl_close` is attained up to it:
 `14 - 600·rate = 1/2 + (13.5 - 600·rate)` with `0 < 13.5 - 600·rate ≤ 2^-50` -/
 example : PhyVerif.Fl.ulpExp (600 * (3242591731706757 / 144115188075855872)) = -49 ∧
